@@ -5,7 +5,7 @@ cd /repo && git apply "$patch" || { echo "PATCH DOES NOT APPLY"; exit 2; }
 cd /verif
 save=$(mktemp -d); cp evidence/*.json $save/ 2>/dev/null      # evidence of mutated runs must not replace the clean-tree evidence
 for p in "$@"; do
-  ./check "$p" --tier quick 2>&1 | grep -E "^VIOLATION|^  component|quick:" | head -${LINES_MAX:-6}
+  VERIF_KEEP_EVIDENCE=1 ./check "$p" --tier quick 2>&1 | grep -E "^VIOLATION|^  component|quick:" | head -${LINES_MAX:-6}
 done
 git -C /repo checkout -- . 
 cp $save/*.json evidence/ 2>/dev/null; rm -rf $save
